@@ -128,7 +128,7 @@ func (f *Frame) instr(ins ssa.Instruction) {
 				}
 			}
 		}
-		if nt, ok := elem.(*types.Named); ok && !f.dry {
+		if nt, ok := elem.(*types.Named); ok && !f.dry && nt.Obj().Pkg() != nil {
 			if _, has := f.s.P.Contracts.Types[nt.Obj().Pkg().Name()+"."+nt.Obj().Name()]; has {
 				f.s.newObjs = append(f.s.newObjs, newObj{f.s.curBlk, ref, x.Type(), nt.Obj().Name(), f.pos(x), f.cur.reach})
 			}
